@@ -1,7 +1,13 @@
 // One include for the whole library: from src/ (default) or from the amalgamated single header (C20 dual build).
+// In the single-header build the moc output for the header is pulled into the same translation unit (the header defines a few
+// non-inline functions, so it can only be included from one translation unit of a program).
 #pragma once
 #ifdef VERIF_QTLOGGER_H
 #  include VERIF_QTLOGGER_H
+#  ifdef VERIF_QTLOGGER_MOC
+#    include VERIF_QTLOGGER_MOC
+#  endif
 #else
 #  include "qtlogger/qtlogger.h"
+#  include "qtlogger/sortedpipeline.h"
 #endif
